@@ -3,7 +3,7 @@
 
      user_cfg = json.load(file)
      cfg      = check_conf(user_cfg, machine)        # input section, then pipeline section
-     ...      derive the right interval [-max, -min] ON A COPY (fix: e0eac6a; before the fix
+     ...      derive the right interval [-max, -min] ON A COPY (fix: e44909e; before the fix
               it was written into cfg["input"]["right"]["disp"], see main_saved_before)
      run      # cost_volume_confidence_run overwrites cfg["pipeline"][step]["indicator"]
      cfg["margins"] = machine.margins.to_dict()
@@ -177,7 +177,7 @@ Section Main.
     | Some cfg => Some (set_key "margins" margins (run_rewrites cfg))
     end.
 
-  (* ---- before fix e0eac6a (D8): the derived interval was stored in cfg itself *)
+  (* ---- before fix e44909e (D8): the derived interval was stored in cfg itself *)
   Definition neg_num (v : jv) : jv :=
     match v with
     | JInt z => JInt (- z)
